@@ -5,6 +5,7 @@ import Driver.Send
 import Driver.Loop
 import Driver.C09
 import Driver.C08
+import Driver.C18Lock
 import Driver.C10
 import Driver.C13
 import Driver.C11
@@ -26,7 +27,7 @@ def dispatch (j : Json) : R Json := do
   | "loop" => Driver.Loop.handle op j
   | "c09" => Driver.C09.handle op j
   | "c08" => Driver.C08.handle op j
-  | "c18" => Driver.C08.handle op j
+  | "c18" => if op == "c18.lock" then Driver.C18Lock.handle op j else Driver.C08.handle op j
   | "c10" => Driver.C10.handle op j
   | "c13" => Driver.C13.handle op j
   | "c14" => Driver.C13.handle op j
